@@ -337,5 +337,604 @@ theorem fDownConn_congr (kb : FKB ι α) (i : ι) (idx : Option Nat) {s s' : FSt
 
 end DownConn
 
+/-! ### tables that store each grounding once: `TEq` is "equal up to row order" -/
+
+section Rows
+variable {α : Type}
+
+theorem isEmpty_congr {t t' : Table α} (h : TEq t t') : t.isEmpty = t'.isEmpty := by
+  have e : ∀ u : Table α, u.isEmpty = u.keys.isEmpty := fun u => by cases u <;> rfl
+  rw [e, e, keys_isEmpty_congr h]
+
+theorem mem_of_TEq {t t' : Table α} (h : TEq t t') (hn : Table.NodupKeys t) {r : Row α}
+    (hr : r ∈ t) : r ∈ t' := by
+  have hf : Table.find? t r.g = some r := hn.find?_of_mem hr
+  have hg := h r.g
+  unfold Table.denote at hg
+  rw [hf] at hg
+  cases hx' : Table.find? t' r.g with
+  | none => rw [hx'] at hg; cases hg
+  | some r' =>
+    rw [hx'] at hg
+    simp only [Option.map_some, Option.some.injEq, Prod.mk.injEq] at hg
+    have hk := find?_key hx'
+    have e : r' = r := by
+      cases r; cases r'
+      simp only at hk hg
+      simp [hk, hg.1, hg.2]
+    rw [← e]
+    exact List.mem_of_find?_eq_some hx'
+
+/-- two duplicate-free tables that denote the same map are permutations of each other -/
+theorem perm_of_TEq {t t' : Table α} (h : TEq t t') (hn : Table.NodupKeys t)
+    (hn' : Table.NodupKeys t') : t.Perm t' := by
+  classical
+  have nd : t.Nodup := List.Nodup.of_map (fun r : Row α => r.g) hn
+  have nd' : t'.Nodup := List.Nodup.of_map (fun r : Row α => r.g) hn'
+  exact (List.perm_ext_iff_of_nodup nd nd').mpr
+    fun r => ⟨mem_of_TEq h hn, mem_of_TEq h.symm hn'⟩
+
+/-- … in particular they have the same number of rows -/
+theorem length_of_TEq {t t' : Table α} (h : TEq t t') (hn : Table.NodupKeys t)
+    (hn' : Table.NodupKeys t') : t.length = t'.length :=
+  (perm_of_TEq h hn hn').length_eq
+
+end Rows
+
+/-! ### the quantifier activations are symmetric in their instances -/
+
+section QuantArith
+variable {α : Type} [Field α] [LinearOrder α]
+
+theorem andUp_perm (b : α) {ops ops' : List (Opd α)} (h : ops.Perm ops') :
+    andUp b ops = andUp b ops' := by
+  unfold andUp
+  rw [(h.map termLo).sum_eq, (h.map termHi).sum_eq]
+
+theorem orUp_perm (tr : Bool) (b : α) {ops ops' : List (Opd α)} (h : ops.Perm ops') :
+    orUp tr b ops = orUp tr b ops' := by
+  simp only [orUp, (h.map (fun o : Opd α => min o.w 0)).sum_eq,
+    (h.map (fun o : Opd α => o.w * o.lo)).sum_eq, (h.map (fun o : Opd α => o.w * o.hi)).sum_eq]
+
+/-- the upward activation of a quantifier does not depend on the order of the instances -/
+theorem qUp_perm (isAll : Bool) {bs bs' : List (Bounds α)} (h : bs.Perm bs') :
+    qUp isAll bs = qUp isAll bs' := by
+  have hu : (unitOpds bs).Perm (unitOpds bs') := h.map _
+  unfold qUp
+  rw [andUp_perm 1 hu, orUp_perm true 1 hu]
+
+/-- the And inverse for ONE operand `o` among the operands `ops` -/
+def andDownAt (b alpha L U : α) (ops : List (Opd α)) (o : Opd α) : Bounds α :=
+  let fL := L + (if L ≤ 0 then b - sumW ops else 0)
+  let fU := U + (if 1 ≤ U then b - 1 else 0)
+  let sLo := (ops.map termLo).sum
+  let sHi := (ops.map termHi).sum
+  if o.w = 0 then ⟨0, 1⟩ else
+    let wc := max o.w 0
+    let lo := if 1 - alpha < L then clamp01 (1 + (fL - b + (sHi - termHi o)) / wc) else 0
+    let hi := if U < alpha then clamp01 (1 + (fU - b + (sLo - termLo o)) / wc) else 1
+    ⟨lo, hi⟩
+
+theorem andDown_eq (b alpha L U : α) (ops : List (Opd α)) :
+    andDown b alpha L U ops = ops.map (andDownAt b alpha L U ops) := rfl
+
+/-- the other operands enter only through three sums -/
+theorem andDownAt_perm (b alpha L U : α) {ops ops' : List (Opd α)} (h : ops.Perm ops') :
+    andDownAt b alpha L U ops = andDownAt b alpha L U ops' := by
+  have e1 : sumW ops = sumW ops' := by unfold sumW; exact (h.map _).sum_eq
+  have e2 : (ops.map termLo).sum = (ops'.map termLo).sum := (h.map _).sum_eq
+  have e3 : (ops.map termHi).sum = (ops'.map termHi).sum := (h.map _).sum_eq
+  funext o
+  simp only [andDownAt, e1, e2, e3]
+
+def mkU (b : Bounds α) : Opd α := ⟨1, b.lo, b.hi⟩
+
+theorem unitOpds_eq (bs : List (Bounds α)) : unitOpds bs = bs.map mkU := rfl
+
+/-- the downward proposal of a quantifier for ONE instance `b` among the instances `bs` -/
+def qDownF (isAll : Bool) (self : Bounds α) (bs : List (Bounds α)) (b : Bounds α) : Bounds α :=
+  if isAll then andDownAt 1 1 self.lo self.hi (unitOpds bs) (mkU b)
+  else negB (andDownAt 1 1 (1 - self.hi) (1 - self.lo) ((unitOpds bs).map Opd.neg) (Opd.neg (mkU b)))
+
+theorem qDown_eq (isAll : Bool) (self : Bounds α) (bs : List (Bounds α)) :
+    qDown isAll self bs = bs.map (qDownF isAll self bs) := by
+  cases isAll with
+  | true =>
+    simp only [qDown, if_true, andDown_eq, unitOpds_eq, List.map_map]
+    rfl
+  | false =>
+    simp only [qDown, Bool.false_eq_true, if_false, orDown, andDown_eq, unitOpds_eq,
+      List.map_map]
+    apply List.map_congr_left
+    intro b _
+    simp only [Function.comp, qDownF, Bool.false_eq_true, if_false, unitOpds_eq, List.map_map]
+
+theorem qDownF_perm (isAll : Bool) (self : Bounds α) {bs bs' : List (Bounds α)}
+    (h : bs.Perm bs') : qDownF isAll self bs = qDownF isAll self bs' := by
+  have hu : (unitOpds bs).Perm (unitOpds bs') := h.map _
+  funext b
+  unfold qDownF
+  rw [andDownAt_perm 1 1 self.lo self.hi hu,
+    andDownAt_perm 1 1 (1 - self.hi) (1 - self.lo) (hu.map Opd.neg)]
+
+end QuantArith
+
+/-! ### aggregation with an arbitrary bound selector -/
+
+section StepS
+variable {α : Type} [Field α] [LinearOrder α]
+
+/-- the step of the aggregation fold of `fUpQuant` -/
+def stepS (sel : BoundSel) (acc : Table α × α) (it : Gr × Bounds α) : Table α × α :=
+  ((aggRow acc.1 it.1 sel it.2).1, acc.2 + (aggRow acc.1 it.1 sel it.2).2)
+
+theorem stepS_comm (sel : BoundSel) {x y : Gr × Bounds α} (h : x.1 ≠ y.1) (z : Table α × α) :
+    stepS sel (stepS sel z x) y = stepS sel (stepS sel z y) x := by
+  obtain ⟨e1, e2, e3⟩ := aggRow_comm z.1 h sel x.2 y.2
+  simp only [stepS]
+  rw [e1, e2, e3, add_right_comm]
+
+theorem foldl_stepS_congr (sel : BoundSel) :
+    ∀ (l : List (Gr × Bounds α)) {z z' : Table α × α}, TEq z.1 z'.1 → z.2 = z'.2 →
+      TEq (l.foldl (stepS sel) z).1 (l.foldl (stepS sel) z').1 ∧
+        (l.foldl (stepS sel) z).2 = (l.foldl (stepS sel) z').2
+  | [], _, _, h1, h2 => ⟨h1, h2⟩
+  | x :: l, z, z', h1, h2 => by
+    rw [List.foldl_cons, List.foldl_cons]
+    obtain ⟨e1, e2⟩ := aggRow_congr h1 x.1 sel x.2
+    exact foldl_stepS_congr sel l (z := stepS sel z x) (z' := stepS sel z' x) e1
+      (by simp only [stepS, e2, h2])
+
+/-- a fold of `aggRow` over pairwise different groundings with proposals given by a function of
+the grounding: only the set of groundings and the denoted start table matter -/
+theorem foldl_quant_congr (sel : BoundSel) {ks ks' : List Gr} (hk : ks.Perm ks')
+    {P P' : Gr → Bounds α} (hP : ∀ k, P k = P' k) {t0 t0' : Table α} (ht : TEq t0 t0') :
+    TEq (ks.foldl (fun (acc : Table α × α) k => stepS sel acc (k, P k)) (t0, 0)).1
+        (ks'.foldl (fun (acc : Table α × α) k => stepS sel acc (k, P' k)) (t0', 0)).1 ∧
+      (ks.foldl (fun (acc : Table α × α) k => stepS sel acc (k, P k)) (t0, 0)).2 =
+        (ks'.foldl (fun (acc : Table α × α) k => stepS sel acc (k, P' k)) (t0', 0)).2 := by
+  have e : P' = P := (funext hP).symm
+  subst e
+  have hm : ∀ (l : List Gr) (z : Table α × α),
+      l.foldl (fun (acc : Table α × α) k => stepS sel acc (k, P' k)) z =
+        (l.map fun k => (k, P' k)).foldl (stepS sel) z := by
+    intro l z
+    rw [List.foldl_map]
+  rw [hm, hm]
+  have hp : (ks.map fun k => (k, P' k)).Perm (ks'.map fun k => (k, P' k)) := hk.map _
+  have hcomm : ∀ x ∈ ks.map (fun k => (k, P' k)), ∀ y ∈ ks.map (fun k => (k, P' k)),
+      ∀ z : Table α × α, stepS sel (stepS sel z x) y = stepS sel (stepS sel z y) x := by
+    intro x hx y hy z
+    obtain ⟨gx, _, rfl⟩ := List.mem_map.mp hx
+    obtain ⟨gy, _, rfl⟩ := List.mem_map.mp hy
+    by_cases hxy : gx = gy
+    · rw [hxy]
+    · exact stepS_comm sel hxy z
+  rw [hp.foldl_eq' hcomm]
+  exact foldl_stepS_congr sel _ ht rfl
+
+end StepS
+
+/-! ### the quantifiers -/
+
+section Quant
+variable {ι : Type} [DecidableEq ι] {α : Type} [Field α] [LinearOrder α]
+
+/-- the working bounds of the instances of group `k` -/
+def instOf (n : FNode ι α) (rows : Table α) (k : Gr) : List (Bounds α) :=
+  (rows.filter fun r => groupKey n.free r.g == k).map (·.b)
+
+/-- the groups: the groundings of the free variables, in order of first occurrence -/
+def quantKeys (n : FNode ι α) (rows : Table α) : List Gr :=
+  dedupKeepFirst (rows.map fun r => groupKey n.free r.g)
+
+theorem mem_quantKeys {n : FNode ι α} {rows : Table α} {k : Gr} :
+    k ∈ quantKeys n rows ↔ ∃ r ∈ rows, groupKey n.free r.g = k := by
+  unfold quantKeys
+  rw [mem_dedupKeepFirst, List.mem_map]
+
+theorem quantKeys_set (n : FNode ι α) {rows rows' : Table α} (h : rows.Perm rows') (k : Gr) :
+    k ∈ quantKeys n rows ↔ k ∈ quantKeys n rows' := by
+  rw [mem_quantKeys, mem_quantKeys]
+  constructor
+  · rintro ⟨r, hr, e⟩; exact ⟨r, h.mem_iff.mp hr, e⟩
+  · rintro ⟨r, hr, e⟩; exact ⟨r, h.mem_iff.mpr hr, e⟩
+
+theorem quantKeys_perm (n : FNode ι α) {rows rows' : Table α} (h : rows.Perm rows') :
+    (quantKeys n rows).Perm (quantKeys n rows') := by
+  have hs := quantKeys_set n h
+  unfold quantKeys at hs ⊢
+  rw [List.perm_ext_iff_of_nodup (nodup_dedupKeepFirst _) (nodup_dedupKeepFirst _)]
+  exact hs
+
+theorem instOf_perm (n : FNode ι α) {rows rows' : Table α} (h : rows.Perm rows') (k : Gr) :
+    (instOf n rows k).Perm (instOf n rows' k) :=
+  (h.filter _).map _
+
+theorem fUpQuant_eq (kb : FKB ι α) (i : ι) (s : FState ι α) :
+    fUpQuant kb i s =
+      match (kb i).ops with
+      | [] => (s, 0)
+      | j :: _ =>
+        if (s.get j).isEmpty then (s, 0) else
+          (s.set i (((quantKeys (kb i) (s.get j)).foldl (fun (acc : Table α × α) k =>
+              stepS (qSel (kb i)) acc (k, qUp ((kb i).kind = .all) (instOf (kb i) (s.get j) k)))
+              (Table.addg (kb i).world (s.get i) (quantKeys (kb i) (s.get j)), 0)).1),
+            ((quantKeys (kb i) (s.get j)).foldl (fun (acc : Table α × α) k =>
+              stepS (qSel (kb i)) acc (k, qUp ((kb i).kind = .all) (instOf (kb i) (s.get j) k)))
+              (Table.addg (kb i).world (s.get i) (quantKeys (kb i) (s.get j)), 0)).2) := rfl
+
+/-- `_Quantifier.upward` IS ORDER-FREE on states whose operand table stores each grounding once.
+(Without `hn`, `hn'` the statement is false: see `quant_counterexample`.) -/
+theorem fUpQuant_congr (kb : FKB ι α) (i : ι) {s s' : FState ι α} (h : SEq s s')
+    (hn : ∀ j ∈ (kb i).ops, Table.NodupKeys (s.get j))
+    (hn' : ∀ j ∈ (kb i).ops, Table.NodupKeys (s'.get j)) :
+    SEq (fUpQuant kb i s).1 (fUpQuant kb i s').1 ∧ (fUpQuant kb i s).2 = (fUpQuant kb i s').2 := by
+  rw [fUpQuant_eq, fUpQuant_eq]
+  cases hops : (kb i).ops with
+  | nil => exact ⟨h, rfl⟩
+  | cons j _ =>
+    have hp : (s.get j).Perm (s'.get j) :=
+      perm_of_TEq (h j) (hn j (by rw [hops]; exact List.mem_cons_self))
+        (hn' j (by rw [hops]; exact List.mem_cons_self))
+    simp only [isEmpty_congr (h j)]
+    split
+    · exact ⟨h, rfl⟩
+    · obtain ⟨e1, e2⟩ := foldl_quant_congr (qSel (kb i)) (quantKeys_perm (kb i) hp)
+        (P := fun k => qUp ((kb i).kind = .all) (instOf (kb i) (s.get j) k))
+        (P' := fun k => qUp ((kb i).kind = .all) (instOf (kb i) (s'.get j) k))
+        (fun k => qUp_perm _ (instOf_perm (kb i) hp k))
+        ((h i).addg (kb i).world (quantKeys_set (kb i) hp))
+      exact ⟨h.set i e1, e2⟩
+
+/-- all downward proposals of a quantifier -/
+def qDownProps (n : FNode ι α) (rows ti : Table α) : List (Gr × Bounds α) :=
+  (quantKeys n rows).flatMap fun k =>
+    List.zip ((rows.filter fun r => groupKey n.free r.g == k).map (·.g))
+      (qDown (n.kind = .all) (Table.getD n.world ti k)
+        ((rows.filter fun r => groupKey n.free r.g == k).map (·.b)))
+
+theorem fDownQuant_eq (kb : FKB ι α) (i : ι) (s : FState ι α) :
+    fDownQuant kb i s =
+      match (kb i).ops with
+      | [] => (s, 0)
+      | j :: _ =>
+        if (s.get j).isEmpty then (s, 0) else
+          ((s.set i (Table.addg (kb i).world (s.get i) (quantKeys (kb i) (s.get j)))).set j
+            ((qDownProps (kb i) (s.get j)
+                (Table.addg (kb i).world (s.get i) (quantKeys (kb i) (s.get j)))).foldl stepA
+              ((s.set i (Table.addg (kb i).world (s.get i) (quantKeys (kb i) (s.get j)))).get j,
+                0)).1,
+            ((qDownProps (kb i) (s.get j)
+                (Table.addg (kb i).world (s.get i) (quantKeys (kb i) (s.get j)))).foldl stepA
+              ((s.set i (Table.addg (kb i).world (s.get i) (quantKeys (kb i) (s.get j)))).get j,
+                0)).2) := rfl
+
+/-- the proposal for the instance stored in row `r` -/
+def qDownItem (n : FNode ι α) (rows ti : Table α) (r : Row α) : Gr × Bounds α :=
+  (r.g, qDownF (n.kind = .all) (Table.getD n.world ti (groupKey n.free r.g))
+    (instOf n rows (groupKey n.free r.g)) r.b)
+
+theorem zip_qDown (isAll : Bool) (self : Bounds α) (grp : List (Row α)) :
+    List.zip (grp.map (·.g)) (qDown isAll self (grp.map (·.b))) =
+      grp.map fun r => (r.g, qDownF isAll self (grp.map (·.b)) r.b) := by
+  rw [qDown_eq, List.map_map, List.zip_map']
+  rfl
+
+theorem mem_qDownProps {n : FNode ι α} {rows ti : Table α} {x : Gr × Bounds α} :
+    x ∈ qDownProps n rows ti ↔ ∃ r ∈ rows, qDownItem n rows ti r = x := by
+  unfold qDownProps
+  simp only [List.mem_flatMap, zip_qDown, List.mem_map, List.mem_filter]
+  constructor
+  · rintro ⟨k, _, r, ⟨hr, hk⟩, e⟩
+    have hk' : groupKey n.free r.g = k := by simpa using hk
+    subst hk'
+    exact ⟨r, hr, e⟩
+  · rintro ⟨r, hr, e⟩
+    exact ⟨groupKey n.free r.g, mem_quantKeys.mpr ⟨r, hr, rfl⟩, r, ⟨hr, by simp⟩, e⟩
+
+theorem qDownProps_fun {n : FNode ι α} {rows ti : Table α} (hn : Table.NodupKeys rows) :
+    ∀ x ∈ qDownProps n rows ti, ∀ y ∈ qDownProps n rows ti, x.1 = y.1 → x = y := by
+  intro x hx y hy hxy
+  obtain ⟨r, hr, rfl⟩ := mem_qDownProps.mp hx
+  obtain ⟨r', hr', rfl⟩ := mem_qDownProps.mp hy
+  have e : r.g = r'.g := hxy
+  have h1 := hn.find?_of_mem hr
+  have h2 := hn.find?_of_mem hr'
+  rw [e, h2] at h1
+  rw [Option.some.inj h1]
+
+theorem qDownItem_congr (n : FNode ι α) {rows rows' ti ti' : Table α} (hp : rows.Perm rows')
+    (ht : TEq ti ti') (r : Row α) : qDownItem n rows ti r = qDownItem n rows' ti' r := by
+  unfold qDownItem
+  rw [ht.getD, qDownF_perm _ _ (instOf_perm n hp _)]
+
+theorem qDownProps_set (n : FNode ι α) {rows rows' ti ti' : Table α} (hp : rows.Perm rows')
+    (ht : TEq ti ti') (x : Gr × Bounds α) :
+    x ∈ qDownProps n rows ti ↔ x ∈ qDownProps n rows' ti' := by
+  rw [mem_qDownProps, mem_qDownProps]
+  constructor
+  · rintro ⟨r, hr, e⟩; exact ⟨r, hp.mem_iff.mp hr, by rw [← qDownItem_congr n hp ht]; exact e⟩
+  · rintro ⟨r, hr, e⟩; exact ⟨r, hp.mem_iff.mpr hr, by rw [qDownItem_congr n hp ht]; exact e⟩
+
+variable [IsStrictOrderedRing α]
+
+/-- `_Quantifier.downward` IS ORDER-FREE on states whose operand table stores each grounding once.
+(Without `hn`, `hn'` the statement is false: see `quant_counterexample`.) -/
+theorem fDownQuant_congr (kb : FKB ι α) (i : ι) {s s' : FState ι α} (h : SEq s s')
+    (hn : ∀ j ∈ (kb i).ops, Table.NodupKeys (s.get j))
+    (hn' : ∀ j ∈ (kb i).ops, Table.NodupKeys (s'.get j)) :
+    SEq (fDownQuant kb i s).1 (fDownQuant kb i s').1 ∧
+      (fDownQuant kb i s).2 = (fDownQuant kb i s').2 := by
+  rw [fDownQuant_eq, fDownQuant_eq]
+  cases hops : (kb i).ops with
+  | nil => exact ⟨h, rfl⟩
+  | cons j _ =>
+    have hj := hn j (by rw [hops]; exact List.mem_cons_self)
+    have hp : (s.get j).Perm (s'.get j) :=
+      perm_of_TEq (h j) hj (hn' j (by rw [hops]; exact List.mem_cons_self))
+    simp only [isEmpty_congr (h j)]
+    split
+    · exact ⟨h, rfl⟩
+    · have ht : TEq (Table.addg (kb i).world (s.get i) (quantKeys (kb i) (s.get j)))
+          (Table.addg (kb i).world (s'.get i) (quantKeys (kb i) (s'.get j))) :=
+        (h i).addg (kb i).world (quantKeys_set (kb i) hp)
+      have h0 := h.set i ht
+      rw [foldl_stepA_set (qDownProps_fun hj) (qDownProps_set (kb i) hp ht)]
+      obtain ⟨e1, e2⟩ := foldl_stepA_congr
+        (qDownProps (kb i) (s'.get j)
+          (Table.addg (kb i).world (s'.get i) (quantKeys (kb i) (s'.get j))))
+        (z := ((s.set i (Table.addg (kb i).world (s.get i) (quantKeys (kb i) (s.get j)))).get j,
+          0))
+        (z' := ((s'.set i (Table.addg (kb i).world (s'.get i)
+          (quantKeys (kb i) (s'.get j)))).get j, 0))
+        (h0 j) rfl
+      exact ⟨h0.set j e1, e2⟩
+
+end Quant
+
+/-! ### node-level dispatch, call lists, `fInfer` -/
+
+section Engine
+variable {ι : Type} [DecidableEq ι] {α : Type} [Field α] [LinearOrder α] [IsStrictOrderedRing α]
+
+open FolFix
+
+/-- well-formedness of the knowledge base: the variable maps of every connective only use the
+slots `0 … numVars-1` -/
+def KBSlots (kb : FKB ι α) : Prop := ∀ i, ∀ m ∈ (kb i).opmap, ∀ c ∈ m, c < numVars (kb i)
+
+theorem fUp_congr (kb : FKB ι α) (hs : KBSlots kb) (i : ι) {s s' : FState ι α} (h : SEq s s')
+    (hn : SNodup s) (hn' : SNodup s') :
+    SEq (fUp kb i s).1 (fUp kb i s').1 ∧ (fUp kb i s).2 = (fUp kb i s').2 := by
+  have hq := fUpQuant_congr kb i h (fun j _ => hn j) (fun j _ => hn' j)
+  have hc := fUpConn_congr kb i h (hs i)
+  unfold fUp
+  cases hk : (kb i).kind
+  case pred => exact ⟨h, rfl⟩
+  case neg => exact fUpNot_congr kb i h
+  case all => exact hq
+  case ex => exact hq
+  case and => exact hc
+  case or => exact hc
+  case implies => exact hc
+
+theorem fDown_congr (kb : FKB ι α) (hs : KBSlots kb) (i : ι) (idx : Option Nat)
+    {s s' : FState ι α} (h : SEq s s') (hn : SNodup s) (hn' : SNodup s') :
+    SEq (fDown kb i idx s).1 (fDown kb i idx s').1 ∧ (fDown kb i idx s).2 = (fDown kb i idx s').2 := by
+  have hq := fDownQuant_congr kb i h (fun j _ => hn j) (fun j _ => hn' j)
+  have hc := fDownConn_congr kb i idx h (hs i)
+  unfold fDown
+  cases hk : (kb i).kind
+  case pred => exact ⟨h, rfl⟩
+  case neg => exact fDownNot_congr kb i h
+  case all => exact hq
+  case ex => exact hq
+  case and => exact hc
+  case or => exact hc
+  case implies => exact hc
+
+/-- EVERY CALL OF THE ENGINE IS ORDER-FREE -/
+theorem runFCall_congr (kb : FKB ι α) (hs : KBSlots kb) (c : FCall ι) {s s' : FState ι α}
+    (h : SEq s s') (hn : SNodup s) (hn' : SNodup s') :
+    SEq (runFCall kb c s).1 (runFCall kb c s').1 ∧ (runFCall kb c s).2 = (runFCall kb c s').2 := by
+  cases c with
+  | up i => exact fUp_congr kb hs i h hn hn'
+  | down i idx => exact fDown_congr kb hs i idx h hn hn'
+
+/-- … hence every list of calls -/
+theorem runFCalls_congr (kb : FKB ι α) (hs : KBSlots kb) :
+    ∀ (cs : List (FCall ι)) {s s' : FState ι α}, SEq s s' → SNodup s → SNodup s' →
+      SEq (runFCalls kb cs s).1 (runFCalls kb cs s').1 ∧
+        (runFCalls kb cs s).2 = (runFCalls kb cs s').2
+  | [], _, _, h, _, _ => ⟨h, rfl⟩
+  | c :: rest, s, s', h, hn, hn' => by
+    obtain ⟨e1, e2⟩ := runFCall_congr kb hs c h hn hn'
+    obtain ⟨f1, f2⟩ := runFCalls_congr kb hs rest e1 (runFCall_snodup kb s c hn)
+      (runFCall_snodup kb s' c hn')
+    simp only [runFCalls]
+    exact ⟨f1, by rw [e2, f2]⟩
+
+/-- `Model.shape[1]` is a function of the denoted maps, on states that store each grounding once -/
+theorem nGroundings_congr (nodes : List ι) {s s' : FState ι α} (h : SEq s s') (hn : SNodup s)
+    (hn' : SNodup s') : nGroundings nodes s = nGroundings nodes s' := by
+  unfold nGroundings
+  congr 1
+  apply List.map_congr_left
+  intro i _
+  exact length_of_TEq (h i) (hn i) (hn' i)
+
+theorem fInfer_succ (kb : FKB ι α) (nodes : List ι) (up down : List (FCall ι)) (eps : α)
+    (fuel : Nat) (s : FState ι α) :
+    fInfer kb nodes up down eps (fuel + 1) s =
+      if (runFCalls kb up s).2 + (runFCalls kb down (runFCalls kb up s).1).2 ≤ eps ∧
+          nGroundings nodes (runFCalls kb down (runFCalls kb up s).1).1 = nGroundings nodes s then
+        ⟨(runFCalls kb down (runFCalls kb up s).1).1, 1,
+          (runFCalls kb up s).2 + (runFCalls kb down (runFCalls kb up s).1).2, true⟩
+      else
+        ⟨(fInfer kb nodes up down eps fuel (runFCalls kb down (runFCalls kb up s).1).1).state,
+          (fInfer kb nodes up down eps fuel (runFCalls kb down (runFCalls kb up s).1).1).steps + 1,
+          (runFCalls kb up s).2 + (runFCalls kb down (runFCalls kb up s).1).2 +
+            (fInfer kb nodes up down eps fuel (runFCalls kb down (runFCalls kb up s).1).1).total,
+          (fInfer kb nodes up down eps fuel
+            (runFCalls kb down (runFCalls kb up s).1).1).converged⟩ := rfl
+
+/-- THE WHOLE INFERENCE LOOP IS ORDER-FREE: from states that denote the same finite maps (and store
+each grounding once) `fInfer` takes the same number of sweeps, reports the same total amount and
+the same convergence flag, and returns states that denote the same finite maps. -/
+theorem fInfer_congr (kb : FKB ι α) (hs : KBSlots kb) (nodes : List ι) (up down : List (FCall ι))
+    (eps : α) :
+    ∀ (fuel : Nat) {s s' : FState ι α}, SEq s s' → SNodup s → SNodup s' →
+      SEq (fInfer kb nodes up down eps fuel s).state (fInfer kb nodes up down eps fuel s').state ∧
+        (fInfer kb nodes up down eps fuel s).steps = (fInfer kb nodes up down eps fuel s').steps ∧
+        (fInfer kb nodes up down eps fuel s).total = (fInfer kb nodes up down eps fuel s').total ∧
+        (fInfer kb nodes up down eps fuel s).converged =
+          (fInfer kb nodes up down eps fuel s').converged
+  | 0, _, _, h, _, _ => ⟨h, rfl, rfl, rfl⟩
+  | fuel + 1, s, s', h, hn, hn' => by
+    obtain ⟨u1, u2⟩ := runFCalls_congr kb hs up h hn hn'
+    have un := runFCalls_snodup kb s up hn
+    have un' := runFCalls_snodup kb s' up hn'
+    obtain ⟨d1, d2⟩ := runFCalls_congr kb hs down u1 un un'
+    have dn := runFCalls_snodup kb _ down un
+    have dn' := runFCalls_snodup kb _ down un'
+    have g0 := nGroundings_congr nodes h hn hn'
+    have g1 := nGroundings_congr nodes d1 dn dn'
+    obtain ⟨r1, r2, r3, r4⟩ := fInfer_congr kb hs nodes up down eps fuel d1 dn dn'
+    rw [fInfer_succ, fInfer_succ]
+    by_cases c : (runFCalls kb up s).2 + (runFCalls kb down (runFCalls kb up s).1).2 ≤ eps ∧
+        nGroundings nodes (runFCalls kb down (runFCalls kb up s).1).1 = nGroundings nodes s
+    · have c' : (runFCalls kb up s').2 + (runFCalls kb down (runFCalls kb up s').1).2 ≤ eps ∧
+          nGroundings nodes (runFCalls kb down (runFCalls kb up s').1).1 =
+            nGroundings nodes s' := by
+        rw [← u2, ← d2, ← g0, ← g1]; exact c
+      rw [if_pos c, if_pos c']
+      exact ⟨d1, rfl, by rw [u2, d2], rfl⟩
+    · have c' : ¬ ((runFCalls kb up s').2 + (runFCalls kb down (runFCalls kb up s').1).2 ≤ eps ∧
+          nGroundings nodes (runFCalls kb down (runFCalls kb up s').1).1 =
+            nGroundings nodes s') := by
+        rw [← u2, ← d2, ← g0, ← g1]; exact c
+      rw [if_neg c, if_neg c']
+      exact ⟨r1, by rw [r2], by rw [u2, d2, r3], r4⟩
+
+end Engine
+
+/-! ### FINDING: without "each grounding stored once" the quantifiers are NOT functions of the
+denoted maps -/
+
+/-- `∀x. P(x)` as node 1 over the predicate 0 -/
+def cxKB : FKB Nat ℚ := fun i =>
+  match i with
+  | 1 => { kind := .all, ops := [0], bias := 1, alpha := 1, world := ⟨0, 1⟩ }
+  | _ => { kind := .pred, bias := 1, alpha := 1, world := ⟨0, 1⟩ }
+
+/-- table 0 stores the grounding `[0]` TWICE (never produced by the engine); the second row is
+invisible in the denoted map … -/
+def cxS : FState Nat ℚ :=
+  ⟨[(0, [⟨[0], ⟨1/2, 1⟩, ⟨1/2, 1⟩⟩, ⟨[0], ⟨0, 1/4⟩, ⟨0, 1/4⟩⟩]),
+    (1, [⟨[], ⟨0, 1/2⟩, ⟨0, 1/2⟩⟩])]⟩
+
+/-- … so this state denotes the same maps -/
+def cxS' : FState Nat ℚ :=
+  ⟨[(0, [⟨[0], ⟨1/2, 1⟩, ⟨1/2, 1⟩⟩]), (1, [⟨[], ⟨0, 1/2⟩, ⟨0, 1/2⟩⟩])]⟩
+
+theorem cx_SEq : SEq cxS cxS' := by
+  intro j
+  by_cases h0 : j = 0
+  · subst h0
+    intro g
+    show Table.denote [_, _] g = Table.denote [_] g
+    rw [denote_cons, denote_cons, denote_cons]
+    split <;> rfl
+  · by_cases h1 : j = 1
+    · subst h1
+      exact TEq.refl _
+    · have e : cxS.get j = [] := by
+        simp [FState.get, cxS, Ne.symm h0, Ne.symm h1]
+      have e' : cxS'.get j = [] := by
+        simp [FState.get, cxS', Ne.symm h0, Ne.symm h1]
+      rw [e, e']
+      exact TEq.refl _
+
+#eval ((fUpQuant cxKB 1 cxS).2, (fUpQuant cxKB 1 cxS').2,
+  (fDownQuant cxKB 1 cxS).2, (fDownQuant cxKB 1 cxS').2)
+#eval (Table.getD ⟨0, 1⟩ ((fUpQuant cxKB 1 cxS).1.get 1) [],
+  Table.getD ⟨0, 1⟩ ((fUpQuant cxKB 1 cxS').1.get 1) [])
+#eval (Table.getD ⟨0, 1⟩ ((fDownQuant cxKB 1 cxS).1.get 0) [0],
+  Table.getD ⟨0, 1⟩ ((fDownQuant cxKB 1 cxS').1.get 0) [0])
+
+/-- THE QUANTIFIER CALLS SEE SHADOWED DUPLICATE ROWS: the two states denote the same maps, but the
+reported amounts (and the resulting bounds) differ, upward and downward. The hypotheses `hn`, `hn'`
+of `fUpQuant_congr` / `fDownQuant_congr` cannot be dropped. -/
+theorem quant_counterexample :
+    SEq cxS cxS' ∧
+      (fUpQuant cxKB 1 cxS).2 = 1/4 ∧ (fUpQuant cxKB 1 cxS').2 = 0 ∧
+      (fDownQuant cxKB 1 cxS).2 = 0 ∧ (fDownQuant cxKB 1 cxS').2 = 1/2 := by
+  refine ⟨cx_SEq, ?_, ?_, ?_, ?_⟩ <;> decide +kernel
+
+/-! ### non-vacuity: two row orders, one result -/
+
+/-- `c10KB` (And(P(x,y), Q(y,z)) = node 2 over the predicates 0, 1) plus `∃z. And(…)` = node 3 with
+free variables `x, y` -/
+def exKB : FKB Nat ℚ := fun i =>
+  match i with
+  | 3 => { kind := .ex, ops := [2], bias := 1, alpha := 1, world := ⟨0, 1⟩, free := [0, 1] }
+  | _ => c10KB i
+
+theorem exKB_slots : KBSlots exKB := by
+  intro i
+  unfold exKB
+  split
+  · intro m hm; simp at hm
+  · unfold c10KB
+    split
+    · decide
+    · intro m hm; simp at hm
+
+open FolFix in
+theorem c10S_snodup : SNodup c10S ∧ SNodup c10S' := by
+  constructor <;> intro j
+  · by_cases h0 : j = 0
+    · subst h0; show (Table.keys _).Nodup; decide
+    · by_cases h1 : j = 1
+      · subst h1; show (Table.keys _).Nodup; decide
+      · have e : c10S.get j = [] := by simp [FState.get, c10S, Ne.symm h0, Ne.symm h1]
+        rw [e]; exact List.nodup_nil
+  · by_cases h0 : j = 0
+    · subst h0; show (Table.keys _).Nodup; decide
+    · by_cases h1 : j = 1
+      · subst h1; show (Table.keys _).Nodup; decide
+      · have e : c10S'.get j = [] := by simp [FState.get, c10S', Ne.symm h0, Ne.symm h1]
+        rw [e]; exact List.nodup_nil
+
+def exCalls : List (FCall Nat) := [.up 2, .up 3, .down 3 none, .down 2 none, .down 2 (some 1)]
+
+/-- the same facts stored in two row orders: a call list with upward and downward calls over a
+join connective and a partially quantified Exists gives the same maps and the same amount -/
+example : SEq (runFCalls exKB exCalls c10S).1 (runFCalls exKB exCalls c10S').1 ∧
+    (runFCalls exKB exCalls c10S).2 = (runFCalls exKB exCalls c10S').2 :=
+  runFCalls_congr exKB exKB_slots exCalls c10S_SEq c10S_snodup.1 c10S_snodup.2
+
+/-- a single downward call over the join connective (no `SNodup` needed) -/
+example : SEq (fDownConn exKB 2 none c10S).1 (fDownConn exKB 2 none c10S').1 ∧
+    (fDownConn exKB 2 none c10S).2 = (fDownConn exKB 2 none c10S').2 :=
+  fDownConn_congr exKB 2 none c10S_SEq (exKB_slots 2)
+
+/-- the whole inference loop -/
+example : SEq (fInfer exKB [0, 1, 2, 3] [.up 2, .up 3] [.down 3 none, .down 2 none] 0 5 c10S).state
+      (fInfer exKB [0, 1, 2, 3] [.up 2, .up 3] [.down 3 none, .down 2 none] 0 5 c10S').state ∧
+    (fInfer exKB [0, 1, 2, 3] [.up 2, .up 3] [.down 3 none, .down 2 none] 0 5 c10S).steps =
+      (fInfer exKB [0, 1, 2, 3] [.up 2, .up 3] [.down 3 none, .down 2 none] 0 5 c10S').steps ∧
+    (fInfer exKB [0, 1, 2, 3] [.up 2, .up 3] [.down 3 none, .down 2 none] 0 5 c10S).total =
+      (fInfer exKB [0, 1, 2, 3] [.up 2, .up 3] [.down 3 none, .down 2 none] 0 5 c10S').total ∧
+    (fInfer exKB [0, 1, 2, 3] [.up 2, .up 3] [.down 3 none, .down 2 none] 0 5 c10S).converged =
+      (fInfer exKB [0, 1, 2, 3] [.up 2, .up 3] [.down 3 none, .down 2 none] 0 5 c10S').converged :=
+  fInfer_congr exKB exKB_slots _ _ _ _ 5 c10S_SEq c10S_snodup.1 c10S_snodup.2
+
+-- the example is not trivial: the calls do something, and the stored row orders differ
+#eval ((runFCalls exKB exCalls c10S).2, (runFCalls exKB exCalls c10S').2,
+  ((runFCalls exKB exCalls c10S).1.get 2).keys, ((runFCalls exKB exCalls c10S').1.get 2).keys,
+  ((runFCalls exKB exCalls c10S).1.get 3).keys, ((runFCalls exKB exCalls c10S').1.get 3).keys)
+
 end FolCongr
 end LNN
